@@ -297,6 +297,10 @@ func check(in, obs string) string {
 	f := strings.Split(in, "|")
 	tag := f[len(f)-1]
 	switch f[1] {
+	case "X":
+		return checkX(f, obs)
+	case "I":
+		return checkI(f, obs)
 	case "V", "J":
 		keys, o, tok := parseKeys(f[3]), parseVO(f[4]), string(hx.UH(f[5]))
 		got := outcome(obs)
